@@ -117,7 +117,7 @@ EXTRA = {
  "C06": "The estimate is also compared across 5 ways of entering the items (item-wise, one slice, two slices, mixed) for all ordered selections of <= 3 of 8 items whose hashes are boundary values (0, 1, 2^64-1, 2^63, 2^32 ...) through the no-op hasher and Fnv. The monotone streams run on 10 parameter sets, 5 with extreme rates (2^62 .. 1e-4, registers saturating at q+1 or staying at 0), comparing the estimate of the sketcher with the parallel estimate at every step.",
  "C07": "36 collision configurations build the first sketch through a history: a merge with an incompatible sketcher attempted and refused halfway through the stream, reuse after reinit, merge of two half-stream sketchers. Every run is cross-checked against the estimator of the crate (exact agreement), 4 configurations use 70001 / 140001 registers, and totality is repeated for m <= 48 with a trace-level logger installed.",
  "C08": "144 structured-labelling configurations: no-op hasher, the two sets' own items related by one of 8 bit transformations (swap halves, rotate, reverse, complement ...), all three views against J. Every item of a block of 2^25 (2^27) populates one bin of a fresh f32 sketcher; items whose draw is exactly 0.0 are streamed alone and with 40 others: sets sharing them collide at their bin.",
- "C09": "sketch_slice = item-wise + end_sketch and the finishing-edge invariants are also checked on one stream at each of the sizes 255, 256, 257, 1000, 4097, 50000, 65535, 65536, 65537, 1000003, 3*2^20 (thorough: 2^24+1, 5*2^22). Single-item scan: every identifier of a block of 2^25 (2^27; f64: 2^20 (2^22)) populates exactly one bin with (a value in [0,1), its hash); zero-draw witnesses own their bin in longer streams.",
+ "C09": "sketch_slice = item-wise + end_sketch and the finishing-edge invariants are also checked on one stream at each of the sizes 255, 256, 257, 1000, 4097, 50000, 65535, 65536, 65537, 1000003, 3*2^20 (thorough: 2^22+1, 5*2^20). Single-item scan: every identifier of a block of 2^25 (2^27; f64: 2^20 (2^22)) populates exactly one bin with (a value in [0,1), its hash); zero-draw witnesses own their bin in longer streams.",
  "C10": "12 pairs of sequences with runs of 2^8-1..2^8+1 and 2^16-1..2^16+1 occurrences of one element are run at l=1 against a closed form in the element counts (cross-checked against the ranking enumeration on all count vectors <= 3).",
  "C11": "A third hasher configuration gives the symbols 64-bit hashes that agree pairwise on their low halves, high halves or xor-fold. A fourth configuration uses unequal items that hash alike (two tags per element).",
  "C12": "The slice entry point of the f32 densified sketchers is run 38 times under rayon pools of 1, 2, 4 and 16 workers on a 3e5-item slice whose minimum is a tie between two items (schedule sampling). Every kind and the large HashMap sets are run once more with a trace-level logger installed: the log level is part of the environment.",
